@@ -49,8 +49,12 @@ def _assume_inv(it, invs, specials):
 
 def exec_for(it, node):
     st = it.st
-    src = it.ev(node.iter)
-    iterv = it.iterable(src)
+    if isinstance(node.iter, (ast.Tuple, ast.List)) and not any(isinstance(e, ast.Starred) for e in node.iter.elts):
+        # `for x in (a, b, c)`: a display of known length is unrolled exactly
+        iterv = [it.ev(e) for e in node.iter.elts]
+    else:
+        src = it.ev(node.iter)
+        iterv = it.iterable(src)
     if isinstance(iterv, list):
         broke = False
         for e in iterv:
